@@ -62,6 +62,12 @@ INVALID = [
     ("missing-address-extern-pointer", "extern fn bump(q: &{t});\nfn main() -> u8\n{{\n\tvar v: {t} = 1;\n\tbump(v);\n\treturn: 0\n}}\n", "513"),
     ("missing-address-extern-slice-pointer", "extern fn fill(p: &[]{t});\nfn main() -> u8\n{{\n\tvar a: [2]{t} = [1, 2];\n\tfill(a);\n\treturn: 0\n}}\n", "513"),
     ("missing-address-extern-defined", "extern fn fill(p: &[]{t})\n{{\n\tp[0] = 7;\n}}\nfn main() -> u8\n{{\n\tvar a: [2]{t} = [1, 2];\n\tfill(a);\n\treturn: 0\n}}\n", "513"),
+    ("cast-view-to-pointer", "fn poke(data: ([..]{t}))\n{{\n\tvar p: &[..]{t} = cast data;\n\tp[1] = 99;\n}}\nfn main() -> u8\n{{\n\tvar a: []{t} = [1, 2, 3];\n\tpoke(a);\n\treturn: 0\n}}\n", "553"),
+    ("cast-extern-view-to-pointer", "extern fn poke(data: []{t})\n{{\n\tvar p: &[..]{t} = cast data;\n\tp[1] = 99;\n}}\nfn main() -> u8\n{{\n\tvar a: [3]{t} = [1, 2, 3];\n\tpoke(a);\n\treturn: 0\n}}\n", "5"),
+    ("view-as-structure-member", "struct P\n{{\n\tx: {t},\n}}\nstruct Holder\n{{\n\tv: (P),\n}}\nfn set(x: &{t})\n{{\n\tx = 42;\n}}\nfn poke(p: P)\n{{\n\tvar h = Holder {{ v: p }};\n\tset(&h.v.x);\n}}\nfn main() -> u8\n{{\n\tvar a = P {{ x: 1 }};\n\tpoke(a);\n\treturn: 0\n}}\n", "356"),
+    ("array-view-as-structure-member", "struct Holder\n{{\n\tv: ([..]{t}),\n}}\nfn main() -> u8\n{{\n\treturn: 0\n}}\n", "356"),
+    ("address-of-constant-in-constant", "const LIMIT: {t} = 10;\nconst LIMIT_PTR: &{t} = &LIMIT;\nfn bump(x: &{t})\n{{\n\tx = x + 1;\n}}\nfn main() -> u8\n{{\n\tbump(&LIMIT_PTR);\n\treturn: 0\n}}\n", "360"),
+    ("assign-through-constant-pointer", "const LIMIT: {t} = 10;\nconst P: &{t} = &LIMIT;\nfn main() -> u8\n{{\n\tP = 7;\n\treturn: 0\n}}\n", "360"),
     ("assign-through-extern-view", "extern fn f(x: []{t})\n{{\n\tx[0] = 1;\n}}\nfn main() -> u8\n{{\n\tvar a: [2]{t} = [1, 2];\n\tf(a);\n\treturn: 0\n}}\n", "530"),
     ("copy-array-into-element", "fn id(i: usize) -> usize\n{{\n\treturn: i\n}}\nfn main() -> u8\n{{\n\tvar m: [2][2]{t} = [[1, 2], [3, 4]];\n\tvar row: [2]{t} = [5, 6];\n\tm[id(0)] = row;\n\treturn: 0\n}}\n", "531"),
     ("address-of-constant", "const K: {t} = 1;\nfn bump(q: &{t})\n{{\n\tq = q + 1;\n}}\nfn main() -> u8\n{{\n\tbump(&K);\n\treturn: 0\n}}\n", None),
